@@ -129,6 +129,25 @@ def run_build_check(prop, tier, *, models, probes, families, limit, nontrivial, 
         log("DRIFT: %s real=%s model(as coded)=%s %s" % (d["id"], d["real"], d["model"], json.dumps(d["ops"])))
     if drift:
         log("  drift: %d of %d sequences end differently than the as-coded model predicts (not a verdict): %s" % (len(drift), len(cases), json.dumps(drift_kinds)))
+    # when the tree differs from the as-coded model: does it match the model with the proposed repairs switched on?
+    drift_repaired = None
+    if drift:
+        import concurrent.futures
+        exh = [f for f in families if not f.get("simulate")]
+
+        def regen(f):
+            kw = {k: v for k, v in f.items() if k not in ("fam", "adds", "post", "limit", "workers")}
+            return build.gen(f["fam"], f["adds"], f["post"], fix=build.REPAIRED, workers=1, **kw)[0]
+        with concurrent.futures.ThreadPoolExecutor(max_workers=4) as ex:
+            regs = list(ex.map(regen, exh))
+
+        def key(c):
+            return json.dumps([c["fe"], c["gi"], c["go"], c["state"], c["ops"]], sort_keys=True)
+        pred2 = {key(c): c["pred"] for cs2 in regs for c in cs2}
+        compared = [d for d in drift if key(by_id[d["id"]]) in pred2]
+        drift_repaired = sum(1 for d in compared if pred2[key(by_id[d["id"]])] != d["real"])
+        log("  drift: of the %d drifting sequences of the exhaustive families, %d also differ from the model with the repairs (FixD5, FixD15, FixD7) on" % (
+            len(compared), drift_repaired))
     # reproduce: a rejection counts only if a second replay of the same sequence is rejected for the same reason
     confirmed = []
     if mine:
@@ -175,7 +194,7 @@ def run_build_check(prop, tier, *, models, probes, families, limit, nontrivial, 
                    "observations); non-trivial = " + nontrivial.__doc__,
            "exhaustive": exhaustive, "model_runs": model_runs, "families": gen_stats, "observation_lines": len(lines),
            "trace_validation_states": res["states"], "rejected_cases": len(res["bad"]), "rejected_for_this_property": len(mine),
-           "confirmed": len(confirmed), "signatures": sig_count, "known_findings": n_known, "drift": len(drift), "drift_first_difference": drift_kinds, "drift_samples": drift[:3],
+           "confirmed": len(confirmed), "signatures": sig_count, "known_findings": n_known, "drift": len(drift), "drift_vs_repaired_model": drift_repaired, "drift_first_difference": drift_kinds, "drift_samples": drift[:3],
            "selftest": st}
     vlib.write_evidence(prop, tier, "model_checking", cov, assumptions=list(assumptions) + [
         "node bodies and branch conditions are the harness's own functions: they log the dynamic type they receive, emit a value of a fixed "
@@ -221,10 +240,10 @@ def c07(tier, repo=None):
     else:
         models = [("flow", 2, 0, ["AllOutcome", "Sound", "FrozenMaps"]), ("flowend", 2, 0, ["AllOutcome", "Sound", "FrozenMaps"])]
         fams = [dict(fam="flow", adds=2, post=0), dict(fam="flowend", adds=2, post=0),
-                dict(fam="flow", adds=3, post=0, simulate="num=6000", depth=60),
-                dict(fam="flowend", adds=4, post=0, br=2, simulate="num=4000", depth=70),
-                dict(fam="flow", adds=5, post=0, br=2, simulate="num=6000", depth=80),
-                dict(fam="flow2", adds=6, post=0, br=2, simulate="num=1500", depth=90)]
+                dict(fam="flow", adds=3, post=0, simulate="num=20000", depth=60),
+                dict(fam="flowend", adds=4, post=0, br=2, simulate="num=12000", depth=70),
+                dict(fam="flow", adds=5, post=0, br=2, simulate="num=20000", depth=80),
+                dict(fam="flow2", adds=6, post=0, br=2, simulate="num=4000", depth=90)]
         limit = 300000
     return run_build_check("C07", tier, models=models, probes=probes, families=fams, limit=limit, nontrivial=_accepted_and_ran, repo=repo,
                            assumptions=[
